@@ -120,11 +120,22 @@ def block(grid):
     return (tuple(int(x) for x in L.starts), tuple(int(x) for x in L.ends), tuple(L.dims_order), np.array(grid.getAllData(), copy=True))
 
 
+class BlocksInconsistent(Exception):
+    """after an operator the layout of a grid no longer describes the block the grid holds"""
+
+
 def assemble(blocks, npts):
     order = blocks[0][2]
     G = np.zeros([npts[d] for d in order], dtype=blocks[0][3].dtype)
+    cover = np.zeros(G.shape, dtype=int)
     for s, e, o, data in blocks:
+        if tuple(b - a for a, b in zip(s, e)) != tuple(data.shape) or tuple(o) != tuple(order):
+            raise BlocksInconsistent('the layout advertises the block %s:%s (ordering %s) but the grid holds data of shape %s'
+                                     % (list(s), list(e), list(o), list(data.shape)))
         G[tuple(slice(a, b) for a, b in zip(s, e))] = data
+        cover[tuple(slice(a, b) for a, b in zip(s, e))] += 1
+    if not (cover == 1).all():
+        raise BlocksInconsistent('the blocks advertised by the layouts of the processes do not tile the global index space')
     return np.transpose(G, np.argsort(order))       # physical order
 
 
@@ -514,9 +525,13 @@ def part_operators(chk, stats):
                 if not res.ok:
                     chk.fail('C05:parallel-run', '%s on %s raised: %s' % (which, forced, str(res.first_error())[:200]), case)
                     continue
-                for k in refG:
-                    G = assemble([v[k] for v in res.values()], npts)
-                    compare_fields(chk, 'operator:' + which, refG[k], G, dict(case, field=k), stats)
+                try:
+                    for k in refG:
+                        G = assemble([v[k] for v in res.values()], npts)
+                        compare_fields(chk, 'operator:' + which, refG[k], G, dict(case, field=k), stats)
+                except BlocksInconsistent as e:
+                    chk.fail('C05:layout-corrupted', 'after %s the layout objects of the grids no longer describe the blocks they hold: %s' % (which, e), case)
+                    continue
                 chk.case(('op', which, start, forced, iota), nontrivial=True,
                          sample=case if len(chk.samples) < 4 else None)
                 chk.count('operator runs: ' + which)
